@@ -24,7 +24,12 @@ pub fn replay(args: &Args) {
     let mut out = Out::stdout();
     let (mut n, mut bad, mut nloads) = (0u64, 0u64, 0u64);
     let loads = args.flag("loads");
-    for case in &cases {
+    let skip = args.num("skip", 0) as usize;
+    for (ci, case) in cases.iter().enumerate() {
+        if ci < skip {
+            continue;
+        }
+        progress(ci);
         n += 1;
         let bytes: Vec<u8> = case["bytes"].as_array().map(|a| a.iter().map(|x| x.as_u64().unwrap() as u8).collect()).unwrap_or_default();
         let text = match String::from_utf8(bytes.clone()) {
